@@ -29,7 +29,7 @@ def pair_cases(draw, tier="quick"):
         pd = draw(st.sampled_from([1, 1, 2]))
         n = draw(st.integers(3, 12)) if pd == 1 else draw(st.integers(2, 4))
         c.update(pd=pd, n=n, bc=draw(st.sampled_from(["zero", "zero", "periodic", "neumann"])), order=draw(st.sampled_from([0, 1, 2])),
-                 mean_kind=draw(st.sampled_from(["zero", "vector"])))
+                 mean_kind=draw(st.sampled_from(["zero", "vector", "scalar"])))
         dim = n if pd == 1 else n * n
         c["mean"] = draw(gen.vec(dim, -1, 1))
         c["x"] = draw(gen.vec(dim, -2, 2))
@@ -37,7 +37,9 @@ def pair_cases(draw, tier="quick"):
         m = draw(st.integers(2, 12))
         n = draw(st.integers(1, 5))
         c.update(m=m, n=n, with_model=draw(st.booleans()), A=draw(gen.mat(m, n, -1, 1)), x=draw(gen.vec(n, -2, 2)),
-                 mean=draw(gen.vec(m, -1, 1)), data=draw(gen.vec(m, -2, 2)))
+                 mean=draw(gen.vec(m, -1, 1)), data=draw(gen.vec(m, -2, 2)),
+                 # the mean may be a scalar broadcast over the geometry
+                 mean_kind=draw(st.sampled_from(["vector", "vector", "scalar"])))
     return c
 
 
@@ -48,7 +50,7 @@ def build_pair(c):
     s = D.Gamma(c["shape"], c["rate"], name="s")
     if c["kind"] == "gmrf":
         n, pd = c["n"], c["pd"]
-        mean = A(c["mean"]) if c["mean_kind"] == "vector" else np.zeros(n if pd == 1 else n * n)
+        mean = A(c["mean"]) if c["mean_kind"] == "vector" else (float(c["mean"][0]) if c["mean_kind"] == "scalar" else np.zeros(n if pd == 1 else n * n))
         x = D.GMRF(mean, prec=lambda s: s, bc_type=c["bc"], order=c["order"], geometry=c20.make_geom(pd, n), name="x")
         xv = A(c["x"])
         if c["route"] == "joint":
@@ -66,7 +68,7 @@ def build_pair(c):
         if c["route"] == "joint":
             return D.JointDistribution(y, xd, s)(y=b, x=A(c["x"]))
         return D.Posterior(y(x=A(c["x"])).to_likelihood(b), s)
-    y = D.Gaussian(A(c["mean"]), **{key: fn}, geometry=m, name="y")
+    y = D.Gaussian(A(c["mean"]) if c.get("mean_kind", "vector") == "vector" else float(c["mean"][0]), **{key: fn}, geometry=m, name="y")
     if c["route"] == "joint":
         return D.JointDistribution(y, s)(y=b)
     return D.Posterior(y.to_likelihood(b), s)
@@ -100,7 +102,7 @@ def proportional_to_own_density(target, sh, sc, what):
 
 def run_pair(c, rec):
     import cuqi
-    tags = {"kind": c["kind"], "interface": c["interface"], "route": c["route"]}
+    tags = {"kind": c["kind"], "interface": c["interface"], "route": c["route"], "mean": c.get("mean_kind", "vector")}
     if c["kind"] == "gmrf":
         tags.update(bc=c["bc"], order=c["order"], pd=c["pd"])
     if rec.classify(tags, True):
@@ -320,8 +322,17 @@ def run_direct(c, rec):
         t = D.Uniform(mean[:n], mean[:n] + c["var"])
     else:
         t = D.Lognormal(mean[:n], c["var"] * np.eye(n))
-    s = must(lambda: cuqi.experimental.mcmc.Direct(t), "constructing Direct")
-    s.initialize()
+    if c["seed"] % 3 == 0:
+        # the sampler object was first used on another target and is then handed this one (public target attribute)
+        other = D.Gaussian(np.zeros(max(n, 1)) + 5.0, 0.01)
+        s = must(lambda: cuqi.experimental.mcmc.Direct(other), "constructing Direct")
+        s.initialize()
+        s.step()
+        s.target = t
+        rec.count("retargeted")
+    else:
+        s = must(lambda: cuqi.experimental.mcmc.Direct(t), "constructing Direct")
+        s.initialize()
     np.random.seed(c["seed"])
     got = []
     for _ in range(c["steps"]):
